@@ -107,5 +107,12 @@ for label in sorted(os.listdir(os.path.join(HERE, "seeded"))):
         "detected": p.returncode == 1,
         "initially_missed": info[2], "strengthening": info[3],
     }
+    try:
+        prev = json.load(open(os.path.join(d, "meta.json")))
+    except Exception:  # noqa
+        prev = {}
+    for k in ("superseded", "breaks_property_on_current_tree", "detected_before_fix", "demo_with_change_on_current_tree"):
+        if k in prev:
+            meta[k] = prev[k]
     json.dump(meta, open(os.path.join(d, "meta.json"), "w"), indent=1)
     print(label, p.returncode, meta["detected_signatures"][:3], meta["check_wall_s"])
